@@ -142,6 +142,59 @@ CHECKS = {
              "oracle builds the tiling explicitly.",
         ref="4 C19", technique="Coq proof (finite cell by computation + mod lifting) over dumped tables and py2v-translated kernels",
         note=TB + " int(sqrt(k)) is modelled as Z.sqrt k; code vs exact arithmetic compared for every k <= 60000 (quick) / 10^6 (thorough)."),
+    "C06": dict(
+        text="Full under one stated guard, plus a known finding. Gallina state-machine model of send_scp_burst/send_scp (one "
+             "loop iteration = one step consuming an environment event); theorems for every event list, burst, window, tries and "
+             "per-command timeouts: exactly-once callbacks on normal return, at-most-once always, the reply handed to a command "
+             "was caused by a transmission of that command under the explicit hypotheses Causal + Fresh (and a machine-checked "
+             "refutation without Fresh: the 65 537-command sequence-wrap witness, the known finding), window bound on every prefix, "
+             "retransmission count and spacing, timeout raised only after exactly `tries` unanswered sends, fatal codes, "
+             "termination under an honest select, no divergence of the sequence-number loop. Exact trace equality with the real "
+             "SCPConnection on scripted fault schedules (socket/clock/select replaced from outside); independent trace oracle.",
+        ref="4 C06", technique="Coq proof (small-step state machine, invariants over event lists) + dumped constants (T) + vm_compute trace correspondence",
+        note=TB + " Real sockets, the OS clock and select are replaced by explicit event schedules; a wall-clock race is outside the model."),
+    "C07": dict(
+        text="Full (transport faults enter through C06). Chunk arithmetic, receive length and struct/vcpu addressing are translated "
+             "from source on every run; theorems for every address, length and buffer size: chunks are contiguous, non-empty, "
+             "within the buffer, partition the range and use a word/half-word access only when address and length are so aligned "
+             "(all 16 table cases); executing the chunk commands in ANY order and with ANY repetition against the documented "
+             "machine semantics returns exactly the stored bytes / leaves exactly the written bytes and changes no other byte of "
+             "the machine; likewise struct fields, per-core fields, fill (both branches) and link reads/writes; the repaired receive "
+             "length always fits (refutation for the code as found). Real controller vs simulated machine under fault schedules; "
+             "every simulator reply re-checked by the Gallina machine (trace validator).",
+        ref="4 C07", technique="Coq proof (tiling + order/repetition-independent execution) + py2v/ast translation + vm_compute correspondence + trace validator",
+        note=TB + " SC&MP command semantics are as written in Model/Machine.v; struct.pack/unpack trusted; 'any covering order' rests on C06 under its freshness guard."),
+    "C10": dict(
+        text="Full. Theorems for all sets of routing trees: breadth-first traversal visits exactly the nodes; per chip one entry per "
+             "(key, mask) in first-visit order whose route is exactly the departure set (None-routed leaves ignored) and whose "
+             "sources are exactly the arrival directions; MultisourceRouteError iff two visits with equal key and mask differ in "
+             "out-set (and which one is reported). Route set <-> 24-bit word bijection (bit lemma). Router load: when the allocator "
+             "grants a block exactly four commands are issued and slots base.. hold the given entries in order with the app id, "
+             "all other slots and chips unchanged; on refusal RouterError, only the ALLOC issued, nothing installed; read-back "
+             "decodes the same entries (sources are not stored by hardware: stated). Command arguments, record layout and decode "
+             "expressions translated from source; exact correspondence against a simulated router written from the SC&MP "
+             "documentation, independent of rig's constants.",
+        ref="4 C10", technique="Coq proof (traversal/fold invariants, bit lemmas, machine-state frame theorem) + ast/py2v translation + vm_compute correspondence",
+        note=TB + " SARK's allocator is modelled (theorems quantify over every allocator answer); packetisation is C06/C07's."),
+    "C12": dict(
+        text="Full. get_region_for_chip and the bit expressions of the region tree are translated from source on every run; the "
+             "meaning of a region word is specified independently. Theorems for every target list inside the 256x256x18 space, in "
+             "any order with duplicates: every core is selected by exactly one emitted (region, mask) pair iff it was requested "
+             "and by none otherwise; the output is strictly increasing (as pairs and as loader keys), words are 32-bit, masks "
+             "non-empty 18-bit; the default-level word selects exactly its chip; the finite bit layer for all x, y < 256 and "
+             "levels <= 3 by computation with the bound in the statement. Exact list correspondence; oracle expands every pair.",
+        ref="4 C12", technique="Coq proof (tree invariant by induction on levels; finite bit layer by vm_compute) + py2v translation + vm_compute correspondence",
+        note=TB),
+    "C15": dict(
+        text="Full. Format strings, masks, shifts, offsets and argument-count guards are read from the source text by ast on every "
+             "run and drive a generic struct pack/unpack interpreter in the model. Theorems for every in-width field value, any "
+             "payload and 0-3 present arguments: byte-by-byte SDP and SCP layout, decode(encode p) = p in every field under the "
+             "argument-prefix guard (proved necessary), field isolation, the number of arguments taken when decoding is "
+             "max 0 (min n_args ((len-14)/4) 3) incl. payloads ending inside argument words, short strings raise, out-of-width "
+             "fields raise exactly when struct.pack would (ports/cores are masked). Exact byte correspondence both ways incl. "
+             "full sweeps of every 8/16-bit field; struct-free oracle.",
+        ref="4 C15", technique="Coq proof (little-endian pack/unpack lemmas, bit decomposition) + ast-extracted formats (T) + vm_compute correspondence",
+        note=TB + " struct.pack semantics are modelled by the format interpreter."),
 }
 NOT_YET = {}
 def main():
